@@ -108,6 +108,26 @@ def _tx_events(args):
                            [o(lambda i=i: B.cds_pos_to_transcript(i)) for i in range(-1, m + 1)],
                            aa if cds else [o(lambda p=p: B.cds.sequence_pos_to_amino_acid(p)) for p in rng_p],
                            E.loc_outcome(lambda: B.chromosome_intron_location), E.loc_outcome(lambda: B.chromosome_span)])
+        if rnd.random() < 0.5:
+            # intersect(location): the interval restricted to another location (1-2 blocks, any strand, with or without
+            # ), as a new transcript / feature
+            from inscripta.biocantor.gene.feature import FeatureInterval
+
+            a0 = rnd.randrange(0, G)
+            b0 = rnd.randrange(a0 + 1, G + 1)
+            qb = [[a0, b0]]
+            if b0 - a0 >= 3 and rnd.random() < 0.5:
+                m0 = rnd.randrange(a0 + 1, b0 - 1)
+                qb = [[a0, m0], [m0 + 1, b0]]
+            qst = rnd.choice("+-")
+            # (same parent as the interval: locations on different parents are documented never to overlap)
+            q = E.make_loc(qb, qst, tx.chromosome_location.parent)
+            ev.append(["isect", "tx", [blocks, st], bool(cds), [qb, qst],
+                       E.outcome(lambda: tx.intersect(q), lambda r: (E.loc(r.chromosome_location), bool(r.is_coding)))])
+            ft = FeatureInterval([b[0] for b in blocks], [b[1] for b in blocks], strands[st],
+                                 parent_or_seq_chunk_parent=tx.chromosome_location.parent)
+            ev.append(["isect", "feat", [blocks, st], False, [qb, qst],
+                       E.outcome(lambda: ft.intersect(q), lambda r: (E.loc(r.chromosome_location), False))])
         ents = []
         for _ in range(10):
             kind = rnd.choice(["t2s", "c2s", "s2t", "s2c"])
